@@ -276,7 +276,65 @@ def F15():
             '; result depends on add order' if outs[0] != outs[1] else '')
 
 
-ALL = ['F15', 'F1', 'F2', 'F3', 'F4', 'F5', 'F6', 'F7', 'F8', 'F9', 'F10', 'F11', 'F12', 'F13', 'F14']
+def F16():
+    e = DcmMetaExtension.make_empty((2, 2, 2, 2, 2), np.eye(4), None, None)
+    try:
+        r = e.get_subset(3, 0)
+    except TypeError as ex:
+        return 'get_subset(3,0) of an empty 5-D extension without slice dim -> TypeError'
+    if tuple(r.shape) != (2, 2, 2, 1, 2):
+        return 'unexpected shape %s' % (r.shape,)
+
+
+# ---- open findings (recorded in known-findings.txt, not repaired): these report PRESENT on the current tree
+def N1():
+    e = DcmMetaExtension.make_empty((2, 2, 2, 1), np.eye(4), None, 2)
+    try:
+        DcmMetaExtension.from_sequence([e, deepcopy_ext(e)], 4)
+    except KeyError as ex:
+        return 'from_sequence of two (2,2,2,1) extensions along dim 4 -> KeyError %s' % ex
+
+
+def N2():
+    e = DcmMetaExtension.make_empty((2, 2, 2, 1), np.eye(4), None, 2)
+    e.get_class_dict(('time', 'slices'))['k'] = [1, 2]
+    try:
+        e.get_subset(0, 0)
+    except KeyError as ex:
+        return 'get_subset(0,0) of a (2,2,2,1) extension with a time-slices key -> KeyError %s' % ex
+
+
+def N3():
+    es = []
+    for v in ([1, 2], [3, 4]):
+        e = DcmMetaExtension.make_empty((2, 2, 2, 2), np.eye(4), None, None)
+        e.get_class_dict(('time', 'samples'))['k'] = v
+        es.append(e)
+    try:
+        DcmMetaExtension.from_sequence(es, 4)
+    except TypeError as ex:
+        return 'merge of (2,2,2,2) extensions without slice dim along dim 4, time-samples key differs -> TypeError'
+
+
+def N4():
+    es = []
+    for i in range(2):
+        e = DcmMetaExtension.make_empty((2, 1, 2, 1), np.eye(4), None, 2)
+        e.get_class_dict(('global', 'slices'))['k'] = [1, 2]
+        es.append(e)
+    try:
+        DcmMetaExtension.from_sequence(es, 1)
+    except ValueError as ex:
+        return 'merge of (2,1,2,1) extensions along dim 1 with a global-slices key -> ValueError (%s)' % ex
+
+
+def deepcopy_ext(e):
+    from copy import deepcopy
+    return deepcopy(e)
+
+
+OPEN = ['N1', 'N2', 'N3', 'N4']
+ALL = ['F16', 'F15', 'F1', 'F2', 'F3', 'F4', 'F5', 'F6', 'F7', 'F8', 'F9', 'F10', 'F11', 'F12', 'F13', 'F14']
 
 if __name__ == '__main__':
     which = sys.argv[1:] or ALL
